@@ -188,20 +188,7 @@ func runC19(c *Ctx) {
 	{
 		pcalls := callsToFn(dec, prepareRead)
 		rcalls := callsToFn(dec, resetDecode)
-		// underFlag: the call is the first thing done on the true arm of `if c.decodeReset` (the guard moved from
-		// resetDecode to its caller); the block holding that test is returned
-		underFlag := func(rc ssa.CallInstruction) *ssa.BasicBlock {
-			b := rc.Block()
-			if len(b.Preds) != 1 {
-				return nil
-			}
-			pb := b.Preds[0]
-			iff, ok := pb.Instrs[len(pb.Instrs)-1].(*ssa.If)
-			if !ok || pb.Succs[0] != b || !loadOfField(iff.Cond, decodeResetF) {
-				return nil
-			}
-			return pb
-		}
+		underFlag := func(rc ssa.CallInstruction) *ssa.BasicBlock { return underFlagTest(rc, decodeResetF) }
 		first := len(rcalls) > 0
 		for _, pc := range pcalls {
 			dom := false
@@ -287,15 +274,8 @@ func runC19(c *Ctx) {
 					}
 				}
 				// ... or at every call of resetDecode
-				if sites := p.callers(resetDecode); !good && len(sites) > 0 && !resetDecode.Object().Exported() {
-					all := true
-					for _, site := range sites {
-						sc, isCall := site.(ssa.CallInstruction)
-						if !isCall || underFlag(sc) == nil {
-							all = false
-						}
-					}
-					good = all
+				if !good && allCallsUnderFlag(p, resetDecode, decodeResetF) {
+					good = true
 				}
 			}
 		}
